@@ -39,6 +39,9 @@ class Harness:
   def patches(self, params):   # harness-level stubs installed in symbolic mode only
     return []
 
+  def stubs(self, params):     # environment stubs needed in both modes (e.g. tuple-passing struct stand-in)
+    return []
+
   def body(self, ex, params):
     raise NotImplementedError
 
@@ -121,7 +124,8 @@ def run_partition(args):
       cx.active = set(active)
       cx.tier = tier
       try:
-        cx.run(lambda e: h.body(e, params))
+        with symrun.patched(*h.stubs(params)):
+          cx.run(lambda e: h.body(e, params))
         rep = [w for w in cx.violations if w.aid == v.aid]
         reproduced = bool(rep)
         observed = rep[0].detail if rep else None
@@ -135,10 +139,11 @@ def run_partition(args):
       cx = Concrete(m)
       cx.active = set(active)
       cx.tier = tier
-      if i == 0 and index == 0:
-        funcs.update(_profile_functions(lambda: cx.run(lambda e: h.body(e, params))))
-      else:
-        cx.run(lambda e: h.body(e, params))
+      with symrun.patched(*h.stubs(params)):
+        if i == 0 and index == 0:
+          funcs.update(_profile_functions(lambda: cx.run(lambda e: h.body(e, params))))
+        else:
+          cx.run(lambda e: h.body(e, params))
       extra = set(w.aid for w in cx.violations) - sym_aids
       if extra:
         out["error"] = "native run violates %s with model %s but the symbolic run proved it (proxy mismatch)" % (
@@ -215,7 +220,8 @@ def replay_file(path):
   cx = Concrete(blob["model"])
   cx.active = {blob["property"]}
   cx.tier = "quick"
-  cx.run(lambda e: h.body(e, blob["params"]))
+  with symrun.patched(*h.stubs(blob["params"])):
+    cx.run(lambda e: h.body(e, blob["params"]))
   hits = [v for v in cx.violations if v.aid == blob["assertion"]]
   for v in cx.violations:
     print("replay: assertion %s violated: %s" % (v.aid, json.dumps(v.detail, default=str)))
